@@ -393,6 +393,18 @@ theorem span_reverse_involutive (s : Span) : s.reverse.reverse = s := by
   obtain ⟨a, b, st⟩ := s
   simp [Span.reverse]
 
+/-- **Reversal enumerates the reversed sequence** whenever the end is reachable from the start
+(`end = start + m·step`, i.e. the step divides the distance and points the right way); the `example`s at the
+end of this file show a non-dividing step for which the reversed span enumerates a different set — that is
+what the code does, and the statement makes the guard explicit. -/
+theorem span_reverse_enumerates (f : Freq) (a step : Int) (m : Nat) (hs : step ≠ 0) :
+    ∃ l, (⟨.res ⟨f, a⟩, .res ⟨f, a + (m : Int) * step⟩, step⟩ : Span).serials = .ok (some l) ∧
+      (⟨.res ⟨f, a⟩, .res ⟨f, a + (m : Int) * step⟩, step⟩ : Span).reverse.serials = .ok (some l.reverse) := by
+  have hs' : -step ≠ 0 := by omega
+  refine ⟨_, by simp [Span.serials, hs]; rfl, ?_⟩
+  simp only [Span.reverse, Span.serials, hs', if_false, pure, Except.pure]
+  rw [pyRange_reverse a step m hs]
+
 /-- in-place mutations never change the frequency of an end nor whether it is contextual, so a
 well-formed span (both ends resolved ⇒ same frequency) stays well-formed under any op sequence -/
 def WellFormed (s : Span) : Prop :=
